@@ -2,6 +2,12 @@
 
 package file
 
+import (
+	"time"
+
+	"github.com/edutko/decipher/internal/openpgp/packet"
+)
+
 // Verification hooks (see /verif, property C12). Not compiled without the "verif" build tag.
 
 // VerifPGPAlgorithmNames returns the public-key algorithm name table of pgp.go.
@@ -11,4 +17,12 @@ func VerifPGPAlgorithmNames() map[uint8]string {
 		out[uint8(k)] = v
 	}
 	return out
+}
+
+// VerifPGPKeyAttributes runs gpgPublicKeyAttributes.
+func VerifPGPKeyAttributes(pk *packet.PublicKey) []Attribute { return gpgPublicKeyAttributes(pk) }
+
+// VerifPGPSignatureAttributes runs gpgSignatureAttributes.
+func VerifPGPSignatureAttributes(s *packet.Signature, keyCreationTime time.Time) []Attribute {
+	return gpgSignatureAttributes(s, keyCreationTime)
 }
